@@ -98,7 +98,7 @@ func genC05(r *vh.Rand, idx int) c05Spec {
 			}
 		}
 	}
-	if r.Chance(1, 8) {
+	if r.Chance(1, 4) {
 		// Directed shape: calls outstanding in both directions, one side closes while more of its own
 		// calls start at the very same instant, and the other side's first response write breaks.
 		a, b := "client", "server"
@@ -113,6 +113,10 @@ func genC05(r *vh.Rand, idx int) c05Spec {
 			{Kind: "call", Side: a, At: t, N: 3, Dur: 1},
 			{Kind: "call", Side: a, At: t, N: 4, Dur: 1},
 			{Kind: "notify", Side: a, At: t, N: 5},
+		}
+		// more callers at the closing instant: which of them are refused by the closing session is a race
+		for k, m := 0, r.Intn(14); k < m; k++ {
+			s.Ops = append(s.Ops, c05Op{Kind: r.Choose("call", "call", "notify"), Side: a, At: t, N: 6 + k, Dur: r.Intn(2)})
 		}
 		s.Faults = []c05Fault{{Side: b, Kind: "broken-resp"}}
 		return s
